@@ -144,3 +144,18 @@ Proof.
     assert (B : ((1 <=? d)%nat && (d <=? 6)%nat) = true) by (apply andb_true_intro; split; apply Nat.leb_le; lia).
     rewrite B, skipn_repeat_app, Hsp. reflexivity.
 Qed.
+
+(* a Markdown table row is indented by two to five whitespace characters, exactly *)
+Theorem md_table_indent_exact text : md_table_indent text = true <->
+  exists ws r, text = ws ++ PIPE :: r /\ forallb is_space ws = true /\ (2 <= length ws <= 5)%nat.
+Proof.
+  split.
+  - unfold md_table_indent. destruct (count_while_spec is_space text) as (a & r & Es & Fa & L & Hr). rewrite L.
+    intros H. apply andb_prop in H as [H H3]. apply andb_prop in H as [H1 H2]. apply Nat.leb_le in H1. apply Nat.leb_le in H2.
+    rewrite Es, skipn_app_length in H3. destruct r as [|c r]; [discriminate|]. apply N.eqb_eq in H3. subst c.
+    exists a, r. auto.
+  - intros (ws & r & -> & Fw & Hl). unfold md_table_indent.
+    rewrite (count_while_app_stop is_space ws (PIPE :: r) Fw eq_refl), skipn_app_length, N.eqb_refl.
+    assert (B : ((2 <=? length ws)%nat && (length ws <=? 5)%nat) = true) by (apply andb_true_intro; split; apply Nat.leb_le; lia).
+    rewrite B. reflexivity.
+Qed.
